@@ -166,6 +166,32 @@ func TestC26(t *testing.T) {
 					decode("grid-other-key", base, kj, payload, nil)
 				}
 			}
+			// the same payload bytes offered several times (a decoder must not
+			// consume or damage its input): every other key first, then the
+			// recipient twice, all on ONE buffer
+			{
+				buf := append([]byte{}, payload...)
+				for kj := range keys {
+					if kj != ki {
+						_ = enum.Try(func() { _, _ = webrtc.DecodeWebRtcSignal(buf, keys[kj].Priv) })
+					}
+				}
+				for rep := 1; rep <= 2; rep++ {
+					var got *webrtc.WebRtcSignal
+					var derr error
+					caseKey := fmt.Sprintf("%s/same-buffer-after-other-keys/own-key-attempt-%d", base, rep)
+					p := enum.Try(func() { got, derr = webrtc.DecodeWebRtcSignal(buf, k.Priv) })
+					ok := p == nil && derr == nil && got != nil && got.EqualVT(sg.s)
+					out := "decoded"
+					if !ok {
+						out = "failed"
+					}
+					acc.Case("same-buffer", caseKey, true, out)
+					if !ok {
+						run.Violation("roundtrip-fails/same-buffer", fmt.Sprintf("a payload encoded for this peer no longer decodes to the original signal with the recipient's key after earlier decode attempts on the same bytes (%s): panic=%v err=%v", caseKey, p, derr), caseKey)
+					}
+				}
+			}
 			for ci, c := range otherCtxs {
 				if c == wctx {
 					continue
